@@ -27,14 +27,14 @@ INTLIT = ("intlit",)
 class LazyTy(object):
     """Lean type of a declared external, printed when the unit is emitted: a struct type mentions the structure's type
     parameters, which are only final once every function of the unit is translated"""
-    def __init__(self, unit, arg_tys, ret_ty, ret_wrap):
-        self.u, self.arg_tys, self.ret_ty, self.ret_wrap = unit, tuple(arg_tys), ret_ty, ret_wrap
+    def __init__(self, unit, arg_tys, ret_ty, ret_wrap, paren=True):
+        self.u, self.arg_tys, self.ret_ty, self.ret_wrap, self.paren = unit, tuple(arg_tys), ret_ty, ret_wrap, paren
     def key(self): return (self.arg_tys, self.ret_ty, self.ret_wrap)
     def __eq__(self, o): return isinstance(o, LazyTy) and self.key() == o.key()
     def __hash__(self): return hash(repr(self.key()))
     def __str__(self):
         r = self.u.lt(self.ret_ty, False)
-        if self.ret_wrap: r = "(%s %s)" % (self.ret_wrap, r)
+        if self.ret_wrap: r = ("(%s %s)" if self.paren else "%s %s") % (self.ret_wrap, r)
         return " → ".join([self.u.lt(t, False) for t in self.arg_tys] + [r])
     def __repr__(self): return str(self)
 UNIT = ("unit",)
@@ -133,7 +133,9 @@ class Unit:
     """one Rust source file -> one Lean namespace"""
 
     def __init__(self, repo, rel, ns, const_files=(), externals=None, struct_files=(), src=None, foreign_structs=None,
-                 tuple_structs=None, fn_files=()):
+                 tuple_structs=None, fn_files=(), views=None, rewrite=None, error_ctors=None, compact_guards=False):
+        self.compact_guards = compact_guards   # `if c { policy_err!(..) }` -> one step `Rs.policyErrIf` (no join points)
+        self.error_ctors = error_ctors or {}   # error constructor function -> tag prefix (the argument list is appended)
         self.repo, self.rel, self.ns = repo, rel, ns
         # tuple structs (`struct KVV(pub String, pub (u64, Vec<u8>));`) are opaque unless listed here (or translating
         # from a source text, as the self-test does): then they are the tuple of their components
@@ -144,13 +146,25 @@ class Unit:
                 import os
                 return open(os.path.join(os.path.dirname(os.path.abspath(__file__)), "..", r[len("@verif/"):])).read()
             return open(repo.rstrip("/") + "/" + r).read()
-        self.fi = FileIndex(rel, src if src is not None else load(rel))
+        text = src if src is not None else load(rel)
+        self.rewrites = []          # (rule name, number of applications): trusted source normalisations, listed in the output
+        self.rewrite_failed = {}    # (impl, name) -> why: functions whose normalisation did not apply as declared
+        if rewrite is not None:
+            text = rewrite(text, self.rewrites, self.rewrite_failed)
+        self.fi = FileIndex(rel, text)
         self.struct_src = {n: rel for n in self.fi.structs}
         self.fn_src = {}            # (impl, name) -> FileIndex of another file (see fn_files)
         cache = {}
         def index_of(r):
             if r not in cache: cache[r] = FileIndex(r, load(r))
             return cache[r]
+        if views:
+            # trusted *views* of library types: struct declarations (Rust syntax) listing the fields the translated
+            # code may read; they never override a struct of the file itself
+            idx = FileIndex("<views>", views)
+            for n, fields in idx.structs.items():
+                if n not in self.fi.structs:
+                    self.fi.structs[n] = fields; self.struct_src[n] = "trusted view declared in translate/x_fn.py"
         for r in struct_files:      # struct declarations of other files, used as local structures
             idx = index_of(r)
             for n, fields in idx.structs.items():
@@ -180,7 +194,7 @@ class Unit:
         self.externals = externals or {}   # name -> {"params": [rust type str], "ret": rust type str}
         self.fns = {}        # (impl, name) -> FnInfo  (translated)
         self.order = []      # emission order
-        self.failed = {}     # (impl, name) -> message
+        self.failed = dict(self.rewrite_failed)     # (impl, name) -> message  (fail closed)
         self.used_fields = {}  # struct -> ordered list of fields
         self.used_enums = []
         self.used_denums = []   # enums with data-carrying variants
@@ -390,6 +404,10 @@ class Unit:
              "/-! Function bodies translated from `%s` by translate/rs2lean.py (semantics: Prim/Rs.lean)." % self.rel,
              "    Structures list only the fields read or written by the translated functions. -/",
              "namespace %s" % self.ns, "open VlsModel", ""]
+        if self.rewrites:
+            L[3:3] = ["/-! Source normalisations applied before translation (trusted, declared in translate/x_fn.py; each rule must",
+                      "    apply exactly the declared number of times, otherwise nothing of this file is translated):"] + \
+                     ["    * %s  (%d×)" % (n, c) for n, c in self.rewrites] + ["-/"]
         for en in self.used_enums:
             L.append("inductive %s" % en)
             L.append("  " + " ".join("| %s" % lid(v) for v in self.fi.enums[en]))
@@ -479,10 +497,17 @@ class FnTranslator:
         return "%s_%d" % (base, self.n)
 
     def add_ext(self, name, ty, ops=()):
-        if (name, ty) not in self.exts:
+        # one parameter per external name; the Lean type of a declared external is a `LazyTy`, rendered at emission
+        # time, when all used fields / opaque parameters of the structures it mentions are known
+        for o in ops:
+            if o not in self.ext_opaques: self.ext_opaques.append(o)
+        if name not in [n for n, _ in self.exts]:
             self.exts.append((name, ty))
         for o in ops:
             if o not in self.ext_opaques: self.ext_opaques.append(o)
+
+    def note_ext_opaque(self, o):
+        if o not in self.ext_opaques: self.ext_opaques.append(o)
 
     # ---- entry
     def run(self):
@@ -553,6 +578,7 @@ class FnTranslator:
         info.monadic = self.is_result or monadic(ir)
         info.exts = self.exts
         info.ext_opaques = self.ext_opaques
+        info.ext_ops = self.ext_opaques
         info.ir = ir
         info.dropped = self.dropped
         info.needs_deq = self.needs_deq
@@ -704,6 +730,11 @@ class FnTranslator:
             term, ty = self.expr(e[2][0], env, pre, ("str",))
             self.dropped.append("message of policy_error(..)")
             return term
+        if e[0] == "call" and e[1][0] == "path" and e[1][1][-1] in self.u.error_ctors and len(e[2]) == 1:
+            # declared error constructor carrying a list of indices: tag = "<prefix> " ++ toString list
+            term, ty = self.expr(e[2][0], env, pre, None)
+            if ty[0] != "vec" or not is_uint(ty[1]): raise RsError("error constructor argument outside the subset")
+            return '("%s " ++ toString %s)' % (self.u.error_ctors[e[1][1][-1]], term)
         if e[0] == "mcall" and e[2] == "into":
             return self.err_tag(e[1], env, pre)
         raise RsError("error value outside the subset")
@@ -756,7 +787,7 @@ class FnTranslator:
     def has_try(self, e):
         if isinstance(e, tuple):
             if e and e[0] == "try": return True
-            if e and e[0] == "macro" and e[1] in ("policy_err", "temporary_policy_err"): return True
+            if e and e[0] == "macro" and e[1] in ("policy_err", "temporary_policy_err", "transaction_format_err"): return True
             if e and e[0] == "macro": return False
             return any(self.has_try(x) for x in e)
         if isinstance(e, list):
@@ -1090,6 +1121,31 @@ class FnTranslator:
             pre = []
             env2 = self.assign(e, env, pre)
             return self.wrap(pre, cont(env2))
+        if k == "if" and self.u.compact_guards and e[3] is None:
+            g = self.guard_macro(e[2])
+            if g is not None:
+                pre = []
+                c, ct = self.expr(e[1], env, pre, BOOL)
+                self.check_ty(ct, BOOL, "if condition")
+                for lg in g[1]:
+                    self.dropped.append("%s! at line %d (logging: arguments not evaluated)" % (lg[1], lg[3]))
+                m = g[0]
+                a = split_macro_args(m[2], self.u.rel)
+                if a[0] != ("path", ["self"]): raise RsError("%s! on something else than self" % m[1])
+                if not self.is_result: raise RsError("%s! in a function that does not return Result" % m[1])
+                ct_ = c if c.startswith("(") or " " not in c else "(" + c + ")"
+                if m[1] == "policy_err":
+                    if not (self.trait_self or "self" in env): raise RsError("policy_err! without self")
+                    tag, t = self.expr(a[1], env, pre, ("str",))
+                    self.check_ty(t, ("str",), "policy_err! tag")
+                    self.add_ext("policy_filter_err", "String → Bool")
+                    self.dropped.append("message arguments of policy_err! at line %d" % m[3])
+                    pre.append(("bind", "_", MCall("Rs.policyErrIf policy_filter_err %s %s" % (tag, ct_))))
+                else:
+                    if a[1][0] != "str": raise RsError("transaction_format_err! without a literal tag")
+                    self.dropped.append("tag %s and message arguments of transaction_format_err! at line %d" % (a[1][1], m[3]))
+                    pre.append(("bind", "_", MCall("Rs.failIf \"transaction-format\" %s" % ct_)))
+                return self.wrap(pre, cont(env))
         if k in ("if", "iflet", "match", "block"):
             if self.has_jump(e):
                 # the rest of the function is appended to every branch (fail closed on shadowing)
@@ -1144,6 +1200,21 @@ class FnTranslator:
         if k == "unit":
             return cont(env)
         raise RsError("expression statement outside the subset: %s" % k)
+
+    def guard_macro(self, blk):
+        """`{ [log!(..);]* policy_err!(..) | transaction_format_err!(..) [;] }` -> (macro, [log macros]) else None"""
+        if blk[0] != "block": return None
+        items = [it for it in blk[1]]
+        if blk[2] is not None: items = items + [("expr", blk[2])]
+        logs = []
+        for it in items[:-1]:
+            if it[0] == "expr" and it[1][0] == "macro" and it[1][1] in LOG_MACROS: logs.append(it[1])
+            else: return None
+        if not items: return None
+        last = items[-1]
+        if last[0] == "expr" and last[1][0] == "macro" and last[1][1] in ("policy_err", "transaction_format_err"):
+            return last[1], logs
+        return None
 
     def control(self, e, env, fin):
         """if / if-let / match whose branches are finished by fin(env, tail_ast)"""
@@ -1383,6 +1454,16 @@ class FnTranslator:
             self.dropped.append("message arguments of policy_err! at line %d" % line)
             pre.append(("bind", "_", MCall("Rs.policyErr policy_filter_err %s" % tag)))
             return
+        if name == "transaction_format_err":
+            # vls-core/src/policy/error.rs: `return Err(transaction_format_error(format!(..)))` - unconditional (the
+            # policy filter is not consulted and the tag argument is not part of the error value)
+            a = split_macro_args(toks, self.u.rel)
+            if a[0] != ("path", ["self"]): raise RsError("transaction_format_err! on something else than self")
+            if a[1][0] != "str": raise RsError("transaction_format_err! without a literal tag")
+            if not self.is_result: raise RsError("transaction_format_err! in a function that does not return Result")
+            self.dropped.append("tag %s and message arguments of transaction_format_err! at line %d" % (a[1][1], line))
+            pre.append(("bind", "_", MCall("(Rs.fail \"transaction-format\" : Rs.M Unit)")))
+            return
         if name in ("panic", "unreachable", "unimplemented", "todo"):
             pre.append(("bind", "_", MCall("(Rs.panic : Rs.M Unit)")))
             return
@@ -1557,9 +1638,11 @@ class FnTranslator:
         A = [("self" if env[v][0] == "alias" else v) for v in self.assigned(body, [], set()) if v in env]
         A = [v for i, v in enumerate(A) if v not in A[:i]]
         if not jumps:
-            if not A:
+            # a loop whose only effect is leaving the function with an error (`?`, policy_err!, transaction_format_err!
+            # in a Result function): the failure of `List.foldlM` over the unit state stops it exactly there
+            if not A and not self.has_try(body):
                 raise RsError("for loop without effect on outer variables")
-            tup = lid(A[0]) if len(A) == 1 else "(" + ", ".join(lid(v) for v in A) + ")"
+            tup = "()" if not A else (lid(A[0]) if len(A) == 1 else "(" + ", ".join(lid(v) for v in A) + ")")
             env2 = dict(env)
             xp = self.pat(pat, elt, env2)
             lets = self.flush_patlets()
@@ -1572,7 +1655,11 @@ class FnTranslator:
                 bir = self.wrap(lets, self.stmts(body[1], body[2], env2, fin2))
             finally:
                 self.loops.pop()
-            if monadic(bir):
+            if not A:
+                if not monadic(bir): raise RsError("for loop without effect on outer variables")
+                fn = "(fun _ %s => do\n%s)" % (xp, "\n".join(emit_m(bir, 8)))
+                pre.append(("bind", "_", MCall("List.foldlM %s () %s" % (fn, lst))))
+            elif monadic(bir):
                 fn = "(fun %s %s => do\n%s)" % (tup, xp, "\n".join(emit_m(bir, 8)))
                 pre.append(("bind", tup, MCall("List.foldlM %s %s %s" % (fn, tup, lst))))
             else:
@@ -1940,6 +2027,16 @@ class FnTranslator:
             return "%s.%s" % (en, lid(segs[-1])), ("enum", en)
         if segs[0] == "Self" and len(segs) == 2:
             c = self.u.const_value(segs[1], self.local_consts)
+            if c is not None and c[0] != "expr": return self.lit(c[0], c[1]), c[1]
+        if len(segs) == 2 and (segs[0] == "Self" or (self.impl is not None and segs[0] == self.impl)):
+            # associated constant of the translated impl with a non-integer (e.g. array) initialiser
+            c = self.u.const_value(segs[1], self.local_consts)
+            if c is not None and c[0] == "expr":
+                pre0 = []
+                term, t = self.expr(c[1], {}, pre0, c[2])
+                if pre0: raise RsError("constant %s with an effectful initialiser" % segs[1])
+                self.check_ty(t, c[2], "constant " + segs[1])
+                return "(%s : %s)" % (term, self.u.lt(t)), t
             if c is not None: return self.lit(c[0], c[1]), c[1]
         raise RsError("path %s is outside the subset" % "::".join(segs))
 
@@ -2393,7 +2490,10 @@ class FnTranslator:
         where it is called.  `StructType.method` (a struct imported from another file): receiver passed, as for opaque
         types.  External types are printed when the unit is emitted (`LazyTy`).
         `field.method` (`field_style`): a method of a (generic / foreign) field of `self`, `self.local.get(k)`: the field's
-        value is passed as the receiver and a declared `Result` is monadic unless `"monadic": false`."""
+        value is passed as the receiver and a declared `Result` is monadic unless `"monadic": false`.
+        A bare method name with a `"receiver": T` entry (b0809): a method of a value of exactly type T, the receiver is
+        the first of `params`; `"may_panic"` = `"partial"`.  Wherever a receiver is passed, `params` may either list it
+        first (b0507, b0809) or leave it out (b0103): decided by the arity."""
         spec = self.u.externals[name]
         if spec.get("drop"):
             if args: raise RsError("dropped external %s with arguments" % name)
@@ -2401,21 +2501,25 @@ class FnTranslator:
             return "()", UNIT, "val"
         pts = [self.u.parse_type(s, self.impl) for s in spec["params"]]
         rt = self.u.parse_type(spec["ret"], self.impl)
-        if len(pts) != len(args): raise RsError("external %s arity" % name)
         terms, atys = [], []
         if recv is not None:
+            if len(pts) == len(args) + 1:          # the receiver is the first of `params`
+                self.check_ty(recv[1], pts[0], "receiver of external %s" % name)
+                atys, pts = [pts[0]], pts[1:]
+            else:
+                atys = [recv[1]]
             terms.append(recv[0] if " " not in recv[0] or recv[0].startswith("(") else "(" + recv[0] + ")")
-            atys.append(recv[1])
+        if len(pts) != len(args): raise RsError("external %s arity" % name)
         for a, pt in zip(args, pts):
             term, t = self.expr(a, env, pre, pt)
             self.check_ty(t, pt, "argument of external %s" % name)
             terms.append(term if " " not in term or term.startswith("(") else "(" + term + ")")
         monadic_ext = rt[0] == "result" and (spec.get("monadic") or (field_style and spec.get("monadic") is not False))
-        partial_ext = rt[0] != "result" and spec.get("partial")
+        partial_ext = rt[0] != "result" and (spec.get("partial") or spec.get("may_panic"))
         if monadic_ext:
             lty = LazyTy(self.u, atys + pts, rt[1], "Rs.M")      # `Err(e)` = a failure carrying the policy tag of `e`
         elif partial_ext:
-            lty = LazyTy(self.u, atys + pts, rt, "Rs.M")         # a function that may panic / overflow
+            lty = LazyTy(self.u, atys + pts, rt, "Rs.M", paren=not spec.get("may_panic"))   # may panic / overflow
         elif rt[0] == "result":
             rt = ("tryres", rt[1])
             lty = LazyTy(self.u, atys + pts, rt[1], "Option")
@@ -2423,7 +2527,7 @@ class FnTranslator:
             lty = LazyTy(self.u, atys + pts, rt, None)
         ident = "ext_" + re.sub(r"\W+", "_", name)
         ops = []
-        for t in ([recv[1]] if recv is not None else []) + pts + [rt if rt[0] not in ("tryres", "result") else rt[1]]:
+        for t in atys + pts + [rt if rt[0] not in ("tryres", "result") else rt[1]]:
             self.u.opaques_of(t, ops)
         self.add_ext(ident, lty, ops)
         if monadic_ext:
@@ -2532,7 +2636,14 @@ class FnTranslator:
         if k == "lockres":
             if m in ("unwrap", "expect"): return base, bt[1], "val"
             raise RsError("lock result used other than by unwrap/expect")
+        if m in self.u.externals and self.u.externals[m].get("receiver") is not None:
+            # declared external method: only on a receiver of exactly the declared (opaque or view) type
+            want_recv = self.u.parse_type(self.u.externals[m]["receiver"], self.impl)
+            if bt == want_recv and not ((k == "struct") and (bt[1], m) in self.u.fi.fns):
+                return self.call_external(m, args, env, pre, recv=(base, bt))
         if m in ("clone", "copied", "cloned", "as_ref", "to_owned", "borrow") and not args and k not in ("iter", "viter"):
+            return base, bt, "val"
+        if m == "to_vec" and not args and k == "vec":
             return base, bt, "val"
         if m == "into" and not args:
             if want is not None and is_uint(want) and is_uint(bt) and UBITS[want[1]] >= UBITS[bt[1]]: return base, want, "val"
@@ -2872,10 +2983,11 @@ def fn_lean_lines(info):
     u.opaques_of(info.out_ty, ops)
     for o in getattr(info, "ext_opaques", ()):
         if o not in ops: ops.append(o)
+    def ext_ty(n, t): return t      # (a LazyTy renders itself now)
     sig = ""
     if ops: sig += " {%s : Type}" % " ".join(ops)
     for o in info.needs_deq: sig += " [DecidableEq %s]" % o
-    for n, t in info.exts: sig += " (%s : %s)" % (n, t)
+    for n, t in info.exts: sig += " (%s : %s)" % (n, ext_ty(n, t))
     for n, t in info.params: sig += " (%s : %s)" % (lid(n), u.lt(t))
     rt = u.lt(info.out_ty, not info.monadic)
     text = info.text.replace("/-", "/ -").replace("-/", "- /")
@@ -2888,7 +3000,7 @@ def fn_lean_lines(info):
         cur += w + " "
     L.append(cur.rstrip())
     if info.exts:
-        L.append("   externals (trusted boundary, explicit parameters): " + ", ".join("%s : %s" % x for x in info.exts))
+        L.append("   externals (trusted boundary, explicit parameters): " + ", ".join("%s : %s" % (n, ext_ty(n, t)) for n, t in info.exts))
     if info.dropped:
         L.append("   dropped: " + "; ".join(info.dropped))
     L.append("-/")
